@@ -281,7 +281,13 @@ static Result judge_C11(const Case& c) {
   return r;
 }
 
-static Result run_case(const std::string& prop, const Case& c) {
+static Result run_case(const std::string& prop, const Case& c0) {
+  Case mapped;
+  if (c0.campaign == "FUZZ") {   // fuzz input: first byte selects program / decoder-made tree and the C11 variant
+    if (c0.data.empty()) { Result r; r.skipped = true; return r; }
+    mapped.campaign = (c0.data[0] & 2) ? "DEC" : "PROG"; mapped.aux[0] = c0.data[0] & 1; mapped.data.assign(c0.data.begin() + 1, c0.data.end());
+  }
+  const Case& c = mapped.campaign.empty() ? c0 : mapped;
   if (prop == "C03") return judge_C03(c);
   if (prop == "C07") return c.campaign == "ENCN" ? judge_C07_enc((int)c.aux[0], c.aux[1]) : judge_C07_tree(c);
   if (prop == "C11") return judge_C11(c);
@@ -356,9 +362,15 @@ static void run_campaigns(Ctx& ctx) {
   if (want("PROG")) camp_PROG(ctx, thorough ? 6000000 : 600000);
 }
 
-int main(int argc, char** argv) {
+static void driver_init() {
   cbor_set_allocs(va::vmalloc, va::vrealloc, va::vfree);
   va::g.single_cap = (size_t)1 << 24;
-  vh::Driver drv{"drv_tree", run_campaigns, run_case};
+}
+static const char* kDriverName = "drv_tree";
+#ifndef VH_FUZZ_TARGET
+int main(int argc, char** argv) {
+  driver_init();
+  vh::Driver drv{kDriverName, run_campaigns, run_case};
   return vh::driver_main(argc, argv, drv);
 }
+#endif
